@@ -394,6 +394,34 @@ def r5(k: Kit) -> None:
                dotted(c.args[0]) == 'MSG_CHANNEL_WINDOW_ADJUST'
                for c in walk_shallow(m.node)):
             cands.append(m)
+    # besides the replenishing owner, _accept_data may hand back data it
+    # discards after a local close(): that data was never charged to the
+    # local window, so the adjust there is len(data) with no store at all
+    give_back = []
+    for m in list(cands):
+        if m.name != '_accept_data':
+            continue
+        gm = k.cfg(m)
+        for nd, c in k.calls_named(m, 'send_packet', 'self'):
+            if not (c.args and
+                    dotted(c.args[0]) == 'MSG_CHANNEL_WINDOW_ADJUST'):
+                continue
+            amt = c.args[1].args[0] if len(c.args) > 1 and isinstance(
+                c.args[1], ast.Call) and c.args[1].args else None
+            touched = [n for n, v in k.stores_to(m, 'self._recv_window')
+                       if gm.path(nd.id, n.id, follow_exc=False) or
+                       gm.path(n.id, nd.id, follow_exc=False)]
+            rep.check(amt is not None and norm(amt) == 'len(data)' and
+                      not touched, 'C08.R5',
+                      key(m, 'discarded data handed back unchanged'),
+                      'adjust = len(data), local window untouched on that '
+                      'path',
+                      'the adjust sent for discarded data is not its '
+                      'length, or the local window is changed as well: the '
+                      'two ends disagree about the window from then on',
+                      k.loc(m, nd))
+            give_back.append(m)
+    cands = [m for m in cands if m not in give_back]
     if len(cands) != 1:
         rep.error('C08.R5', 'WINDOW_ADJUST owner',
                   f'{len(cands)} SSHChannel methods send WINDOW_ADJUST; '
@@ -839,3 +867,37 @@ def run(idx, rep, tier):
     from .shared import share
     from .c07 import r2 as _c07r2
     share(k, 'C08.R14', 'a CLOSE that arrives while reading is paused waits for the buffered data (= C07.R2): in-window bytes still in the channel are delivered before the cleanup', _c07r2, keep=lambda key: '_flush_recv_buf' in key)
+    rep.rule('C08.R15', 'SSHChannel._accept_data: data discarded because '
+             'the local side has called close() while its own data is '
+             'still queued (close_pending) is given back to the peer\'s '
+             'window (WINDOW_ADJUST of its length) - the peer counted it '
+             'against the window; without the adjust a peer that echoes '
+             'runs out of window, stops reading, and the data our close() '
+             'promised to flush is never delivered')
+    _fa = k.func('channel.SSHChannel._accept_data')
+    from ..absint import evaluate as _ev, Obj as _Obj, NotEvaluable as _NE
+    _body = [st for st in _fa.node.body if not (
+        isinstance(st, ast.Expr) and isinstance(st.value, ast.Constant))]
+    _badc = None
+    for _ss in ('close_pending', 'closed'):
+        try:
+            _o = _ev(k.idx, _fa.module, _body,
+                     {'self._send_state': _ss, 'self._recv_paused': False,
+                      'self._recv_window': 100, 'self._recv_buf': []},
+                     {'data': b'DATA', 'datatype': None},
+                     lambda a, b, c: _Obj('x'))
+        except _NE as exc:
+            rep.error('C08.R15', key(_fa, 'not-evaluable'), str(exc))
+            break
+        _adj = [a for nm, a in _o.calls if nm == 'self.send_packet' and a and
+                a[0] == k.idx.fold_name(_fa.module,
+                                        'MSG_CHANNEL_WINDOW_ADJUST')]
+        if (_ss == 'close_pending') != bool(_adj):
+            _badc = (f'send state {_ss!r}: WINDOW_ADJUST '
+                     f'{"sent" if _adj else "not sent"}')
+    rep.check(_badc is None, 'C08.R15', key(_fa, 'discarded data returned '
+                                                 'to the window'),
+              'adjust in close_pending, nothing once CLOSE was sent',
+              f'{_badc}: window 8192, 491520 bytes written, then close() '
+              'against a peer that echoes: after 10 s 401408 bytes are '
+              'still unsent and wait_closed() hangs', _fa.loc(_fa.node))
